@@ -21,6 +21,7 @@ PID = 'C03'
 LEVEL = 'exploration'
 
 CALLS = {}
+OUTCOMES = None      # set of outcome digests collected by the chunk runner
 
 
 def _bump(name):
@@ -146,6 +147,8 @@ def judge(prog, outs, supplied, bs, model=None, decl='ctor'):
         site = elfi_site(got_exc.__traceback__) or 'harness'
         return ('C03:valid-graph-rejected:%s@%s' % (type(got_exc).__name__, site),
                 dict(what, error=repr(got_exc)[:300]))
+    if OUTCOMES is not None:
+        OUTCOMES.add(digest(sorted((o, repr(_norm(res[o]))) for o in outs if o in res)))
     for o in outs:
         if o not in res:
             return ('C03:requested-output-missing', dict(what, output=o))
@@ -187,6 +190,8 @@ def out_wv_combos(prog, mode):
 @guarded('C03')
 def run_chunk(case):
     """A slice of the program enumeration; every (outputs, with_values) combination per program."""
+    global OUTCOMES
+    OUTCOMES = set()
     gen = R.programs(case['n'], case['max_parents'], case['max_named'], case['meta'])
     progs = itertools.islice(gen, case['lo'], case['hi'])
     n = 0
@@ -207,7 +212,8 @@ def run_chunk(case):
                             return r
             classes.add(''.join(r[1] for r in prog))
     r = ok(outcome=None, programs=nprog)
-    r.update(evals=n, distinct=n, kinds=sorted(classes))
+    r.update(evals=n, distinct=n, kinds=sorted(classes), outcome_list=sorted(OUTCOMES)[:20000])
+    OUTCOMES = None
     return r
 
 
